@@ -550,3 +550,86 @@ func fmtWeights(m map[string]int) string {
 	}
 	return "{" + strings.Join(parts, ",") + "}"
 }
+
+// sccs returns the strongly connected components with a cycle (size >= 2 or a
+// self loop), as lists of nodes.
+func (g *rgraph) sccs() [][]*rnode {
+	index := map[*rnode]int{}
+	low := map[*rnode]int{}
+	on := map[*rnode]bool{}
+	var stack []*rnode
+	var out [][]*rnode
+	next := 0
+	var strong func(v *rnode)
+	strong = func(v *rnode) {
+		index[v], low[v] = next, next
+		next++
+		stack = append(stack, v)
+		on[v] = true
+		for _, e := range v.edges {
+			w := e.to
+			if _, ok := index[w]; !ok {
+				strong(w)
+				if low[w] < low[v] {
+					low[v] = low[w]
+				}
+			} else if on[w] && index[w] < low[v] {
+				low[v] = index[w]
+			}
+		}
+		if low[v] == index[v] {
+			var comp []*rnode
+			for {
+				w := stack[len(stack)-1]
+				stack = stack[:len(stack)-1]
+				on[w] = false
+				comp = append(comp, w)
+				if w == v {
+					break
+				}
+			}
+			cyc := len(comp) >= 2
+			if !cyc {
+				for _, e := range v.edges {
+					if e.to == v {
+						cyc = true
+					}
+				}
+			}
+			if cyc {
+				out = append(out, comp)
+			}
+		}
+	}
+	for _, n := range g.order {
+		if _, ok := index[n]; !ok {
+			strong(n)
+		}
+	}
+	return out
+}
+
+func (g *rgraph) cyclicSCCs() int { return len(g.sccs()) }
+
+// interlocking: some cyclic component contains more than one simple cycle
+// (more internal edges than nodes).
+func (g *rgraph) interlocking() bool {
+	for _, comp := range g.sccs() {
+		in := map[*rnode]bool{}
+		for _, n := range comp {
+			in[n] = true
+		}
+		edges := 0
+		for _, n := range comp {
+			for _, e := range n.edges {
+				if in[e.to] {
+					edges++
+				}
+			}
+		}
+		if edges > len(comp) {
+			return true
+		}
+	}
+	return false
+}
